@@ -105,6 +105,10 @@ def run(ctx):
     for i in range(ctx.budget(10, 60)):
         g = Gen(rng, Opts(sugar=(i % 3 == 0), unsupported=(i % 4 == 0), max_bin=4, max_stmts=3))
         pool.append(g.function())
+    # names the variable scan skips (`true`, `false`) enter a relation late and together: their order must not
+    # depend on the interpreter's string hashing (these two go first so that the hash-seed runs include them)
+    pool = ['int f(int c,int x){ if (c) { x = true; } else { x = false; } }',
+            'int f(int x,int y){ while (true) { x = false; y = true; } y = x + false; }'] + pool
     pool += corpus_sources(ctx.budget(6, 40))
     pool.append('int f(int x,int y){ while (x < 1) { x = x + x; } }')
     # same text positions, different programs: whatever is remembered per source position or per node must not
